@@ -643,12 +643,7 @@ theorem manLines_good (c : MCmd) (ls : List Line) (h : manLines c = some ls) : G
       refine good_cons ⟨by decide, ?_⟩ (good_cons ⟨by decide, by decide⟩ (good_cons (single_roman _) good_nil))
       intro a ha
       simp only [List.mem_cons, List.mem_nil_iff, or_false] at ha
-      rcases ha with rfl | rfl | rfl | rfl | rfl
-      · exact mem_controlArg _
-      · decide
-      · simp
-      · exact mem_controlArg _
-      · simp
+      rcases ha with rfl | rfl | rfl | rfl | rfl <;> exact mem_controlArg _
     · exact good_cons ⟨by decide, by decide⟩ (good_cons (synopsis_good c) (good_cons ⟨by decide, by decide⟩ good_nil))
     · unfold descriptionLines
       split
@@ -815,10 +810,10 @@ theorem visible_positional_named (c : MCmd) (ls : List Line) (h : manLines c = s
   simp only at this
   exact ⟨_, this _ (List.mem_cons_of_mem _ List.mem_cons_self), by simp⟩
 
-/-- **a visible subcommand is named** (`<name>-<sub>(1)`) -/
+/-- **a visible subcommand is named** (`<name>-<sub>(<section>)`) -/
 theorem visible_sub_named (c : MCmd) (ls : List Line) (h : manLines c = some ls) (s : MSub) (hs : s ∈ c.subs)
     (hv : s.hide = false) :
-    Line.text [.roman (dn c ++ [45] ++ s.name ++ [40] ++ [49] ++ [41])] ∈ ls := by
+    Line.text [.roman (dn c ++ [45] ++ s.name ++ [40] ++ c.ovSection.getD [49] ++ [41])] ∈ ls := by
   have hany : c.subs.any (!·.hide) = true := List.any_eq_true.2 ⟨s, hs, by simp [hv]⟩
   unfold manLines at h
   simp only at h
